@@ -9,6 +9,110 @@ from fractions import Fraction
 from harness import core
 
 F = Fraction
+
+# ---------------------------------------------------------------------------------------
+# tie to the source: EmpiricalDistribution.pvalue / expected_value and ToyCalculator.pvalues translated to
+# coq/gen/EmpiricalGen.v on every run
+GEN_PARAMS = '(N : Num) (Phi : V N -> V N) (percentile : list (V N) -> V N -> option (V N))'
+GEN_ARGS = 'N Phi percentile'
+GEN_HEADER = ('From Coq Require Import ZArith Bool List.\nRequire Import PV.Num.\nImport ListNotations.\nLocal Open Scope list_scope.\n'
+              '(* GENERATED on every run by harness/props/c14.py:extract from $VERIF_REPO/src/pyhf/infer/calculators.py - do not edit.\n'
+              '   samples is self.samples (a rank-1 tensor = list); Phi is tensorlib.normal_cdf; percentile l q is\n'
+              '   tensorlib.percentile(l, q, interpolation="linear"); integer tensors are Z, their true division is the division of\n'
+              '   the number record. *)\n')
+
+
+def _tie_exec(emp_cls):
+    from harness.props import tie_translate as tt
+
+    class X(tt.Exec):
+        def global_name(self, name, st):
+            if name in ('get_backend', 'float'):
+                return tt.Ext(name)
+            raise tt.TB('unknown name %s' % name)
+
+        def self_attr(self, attr, node, st):
+            if attr == 'samples':
+                return tt.T('samples', tt.LIST(tt.NUM))
+            raise tt.TB('self.%s (line %d)' % (attr, node.lineno))
+
+        def attr_ext(self, base, attr, node, st):
+            if isinstance(base, tt.Ext) and base.tag == 'tensorlib':
+                return tt.Ext('tensorlib.' + attr)
+            if isinstance(base, tt.T) and base.ty == 'empdist' and attr == 'pvalue':
+                return tt.Ext('distmethod', (base.s, attr))
+            raise tt.TB('attribute .%s of %r (line %d)' % (attr, base, node.lineno))
+
+        def call_ext(self, f, args, kwargs, node, st):
+            if f.tag == 'tensorlib.normal_cdf' and len(args) == 1 and not kwargs:
+                return tt.T('(Phi %s)' % self.num(args[0], node), tt.NUM)
+            if f.tag == 'tensorlib.percentile':
+                if (len(args) != 2 or list(kwargs) != ['interpolation'] or not (isinstance(kwargs['interpolation'], tt.S) and kwargs['interpolation'].v == 'linear')
+                        or not (isinstance(args[0], tt.T) and args[0].ty == tt.LIST(tt.NUM))):
+                    raise tt.TB('percentile (line %d): not (tensor, q, interpolation="linear")' % node.lineno)
+                return tt.T('(percentile %s %s)' % (args[0].s, self.num(args[1], node)), tt.OPTNUM)
+            if f.tag == 'distmethod' and len(args) == 1 and not kwargs:
+                return tt.T('(gen_pvalue %s %s %s)' % (GEN_ARGS, f.data[0], self.num(args[0], node)), tt.NUM)
+            raise tt.TB('call of %r (line %d)' % (f, node.lineno))
+    return X()
+
+
+def generate():
+    """returns (Coq text of gen/EmpiricalGen.v, info).  Raises facts.TieBroken."""
+    import ast
+    from harness import facts
+    from harness.props import tie_translate as tt
+    rel = 'infer/calculators.py'
+    tree, path = facts.parse(rel)
+    emp = facts.find_class(tree, 'EmpiricalDistribution')
+    toy = facts.find_class(tree, 'ToyCalculator')
+    init = facts.find_func(emp, '__init__')
+    stores = [n for n in ast.walk(init) if isinstance(n, ast.Assign) and any(isinstance(t, ast.Attribute) and t.attr == 'samples' for t in n.targets)]
+    if ([a.arg for a in init.args.args] != ['self', 'samples'] or len(stores) != 1
+            or tt.dump(stores[0].value) != tt.pattern('tensorlib.ravel(samples)')):
+        raise tt.TB('EmpiricalDistribution.__init__ does not store tensorlib.ravel(samples) as self.samples')
+    text, info = GEN_HEADER, {}
+
+    def method(cls, name, params):
+        fn = facts.find_func(cls, name)
+        if [a.arg for a in fn.args.args] != ['self'] + params or fn.args.vararg or fn.args.kwarg or fn.args.kwonlyargs or fn.args.defaults:
+            raise tt.TB('%s.%s: parameters are not (self, %s)' % (cls.name, name, ', '.join(params)))
+        return fn
+
+    def run(fn, env):
+        x = _tie_exec(emp)
+        o = tt.only_ret(x.block(fn.body, tt.St(env=env)), fn.name)
+        if o.st.warns or o.st.attrs:
+            raise tt.TB('%s has side effects' % fn.name)
+        return x, o.val
+
+    def emit(fn, gname, params, rty, body):
+        nonlocal text
+        text += '\n' + tt.source_comment(rel, fn, path)
+        text += 'Definition %s %s %s : %s :=\n  %s.\n' % (gname, GEN_PARAMS, params, rty, body)
+        info[gname] = len(body)
+    fn = method(emp, 'pvalue', ['value'])
+    x, v = run(fn, {'value': tt.T('value', tt.NUM)})
+    emit(fn, 'gen_pvalue', '(samples : list (V N)) (value : V N)', 'V N', x.num(v))
+    fn = method(emp, 'expected_value', ['nsigma'])
+    x, v = run(fn, {'nsigma': tt.T('nsigma', tt.NUM)})
+    if not (isinstance(v, tt.T) and v.ty == tt.OPTNUM):
+        raise tt.TB('expected_value does not return the percentile')
+    emit(fn, 'gen_expected_value', '(samples : list (V N)) (nsigma : V N)', 'option (V N)', v.s)
+    fn = method(toy, 'pvalues', ['teststat', 'sig_plus_bkg_distribution', 'bkg_only_distribution'])
+    x, v = run(fn, {'teststat': tt.T('teststat', tt.NUM), 'sig_plus_bkg_distribution': tt.T('sb', 'empdist'), 'bkg_only_distribution': tt.T('b', 'empdist')})
+    if not (isinstance(v, tt.Tup) and len(v.items) == 3):
+        raise tt.TB('ToyCalculator.pvalues does not return a triple')
+    emit(fn, 'gen_toy_pvalues', '(teststat : V N) (sb b : list (V N))', '(V N * V N * V N)', '(%s, %s, %s)' % tuple(x.num(i) for i in v.items))
+    return text, info
+
+
+def extract(ctx):
+    text, info = generate()
+    core.write_if_changed(os.path.join(core.COQ, 'gen', 'EmpiricalGen.v'), text)
+    return dict(file='coq/gen/EmpiricalGen.v', definitions=sorted(info))
+
+
 BACKENDS = ['numpy', 'jax', 'pytorch', 'tensorflow']
 NSIGMAS = [-2, -1, 0, 1, 2, 0.5]
 TS_CODE = {'qtilde': 1, 'q': 2, 'q0': 3}
